@@ -82,7 +82,7 @@ class Findings:
             if len(items) > 1:
                 what += '  [+%d more inputs of the same class]' % (len(items) - 1)
                 data = dict(data); data['other_inputs'] = [d.get('case') for _, d in items[1:20]]
-            self.ctx.violation(what, data=data, key=key)
+            self.ctx.violation(what, data=data, key=key if isinstance(key, str) else None)
         self.by = {}
 
 def g_eff(c):
@@ -492,7 +492,7 @@ def drift(before, after):
     return (max(abs(a - bb) for a, bb in zip(after[1:-1], before[1:-1])) / s,
             max(abs(a - bb) / max(bb, 1e-12 * s) for a, bb in zip(after[1:-1], before[1:-1])))
 
-def stationarity_part(ctx):
+def stationarity_part(ctx, fnd):
     cases = gen_stationarity(ctx)
     if ctx.replay:
         rp = json.load(open(ctx.replay))
@@ -528,8 +528,9 @@ def stationarity_part(ctx):
                 if same_as_prefix:
                     key = KEY_NU
             ctx.obligations[-1]['known_key'] = key
-            ctx.violation('phi_1D(%s) is not stationary under one_pop with the same nu, gamma, h, beta: over T=%r the spectrum (n=12) moves by %.3g / %.3g / %.3g of its largest entry at 40 / 80 / 160 grid points (no second-order decay)%s' % (
-                desc, c['T'], a40, a80, a160, '; the density equals the gamma-not-times-nu form' if key else ''), data={'case': c, 'impl': r}, key=key)
+            what = 'phi_1D(%s) is not stationary under one_pop with the same nu, gamma, h, beta: over T=%r the spectrum (n=12) moves by %.3g / %.3g / %.3g of its largest entry at 40 / 80 / 160 grid points (no second-order decay)%s' % (
+                desc, c['T'], a40, a80, a160, '; the density equals the form with selection strength gamma instead of gamma*nu' if key else '')
+            fnd.add(key or ('stat', c['id']), what, {'case': c, 'impl': r})
         if 'prefix' in r['160']:
             seen_old.append((c['nu'], c['gamma'], drift(r['160']['prefix']['before'], r['160']['prefix']['after'])[0], a160))
     if seen_old:
@@ -597,7 +598,8 @@ def driver_part(ctx):
                               data={'case': c, 'impl': byid[c['id']], 'coq': rr})
 
 def run(ctx):
-    ctx.level = 'proof (partial)'
+    ctx.level = 'proof'
+    ctx.notes.append('PARTIAL: the analytic half is proved (Props/C01.v); the numerical half (convergence under grid / time-step refinement) is checked against Coq-evaluated oracles, not proved')
     ctx.rule = ('density cases = (gamma on a forced grid through 0, +-1e-8, +-299.9/300/300.1, the exp-overflow guard, -1e6, 1e3 and log-uniform '
                 'random; h in {0, .2, .5-1e-9, .5, .5+1e-9, 1} and random; nu, theta0, beta; default and random dyadic grids, with and without '
                 'exact end points for the genic path); histories = 1-4 epochs, nu in [0.05,20], lengths in [0.005,3], n in 2..30, grid lists '
@@ -624,6 +626,7 @@ def run(ctx):
     if (not only or 'drv' in only) and not ctx.replay:
         driver_part(ctx)
     if not only or 'stat' in only:
-        stationarity_part(ctx)
+        stationarity_part(ctx, fnd)
+        fnd.flush()
     if not only or 'hist' in only:
         history_part(ctx)
